@@ -47,6 +47,9 @@ func genTrPlan(r *kit.Rand) trPlan {
 // taskRunnerCase: the task body is the guarded region. acquired/released count
 // started/finished bodies. Quiescence = Wait() returned.
 func taskRunnerCase(c *kit.Case) {
+	if skipAfterLeak(c, "taskrunner") {
+		return
+	}
 	p := genTrPlan(c.R)
 	m := newMon(c, "taskrunner", p.N, p)
 	tr := threading.NewTaskRunner(p.N)
@@ -125,7 +128,8 @@ func trWait(m *mon, tr *threading.TaskRunner) bool {
 	select {
 	case <-done:
 		return true
-	case <-time.After(stuckProbeAt):
+	case <-time.After(patience()):
+		patienceExpired()
 	}
 	t0 := time.Now()
 	none := 0
@@ -152,7 +156,7 @@ func trWait(m *mon, tr *threading.TaskRunner) bool {
 // start its task before a slot is released. If Wait() can never return (!waited:
 // no task goroutine is left) only the non-blocking part runs.
 func trProbe(m *mon, tr *threading.TaskRunner, n int, phase string, waited bool) {
-	m.c.Obs("taskrunner_quiescence_probes", 1)
+	m.probeObs()
 	release := make(chan struct{})
 	var entered, left atomic.Int64
 	got := 0
